@@ -152,14 +152,15 @@ Proof.
 Qed.
 
 Section Pipe.
+  Variable fx : bool.
   Variable cfg : bytes -> cval.
   Variable budget : option nat.
   Variable eval : bytes -> res cval.
   Variable decode : cval -> res cval.
   Variable verdict : option cval -> bool.
 
-  Notation stage := (stage_fun cfg budget eval decode verdict).
-  Notation run := (run_stages cfg budget eval decode verdict).
+  Notation stage := (stage_fun fx cfg budget eval decode verdict).
+  Notation run := (run_stages fx cfg budget eval decode verdict).
 
   Lemma irrelevant_id : forall id st, relevant id = false -> stage id st = POk st.
   Proof.
@@ -199,7 +200,7 @@ Section Pipe.
   Lemma bindprefix_other : forall st, ps_kind st <> TPrefix -> stage_bindprefix cfg decode st = POk st.
   Proof. intros st H. unfold stage_bindprefix. destruct (ps_kind st); [reflexivity|congruence|reflexivity]. Qed.
 
-  Notation spec := (spec_run cfg budget eval decode verdict).
+  Notation spec := (spec_run fx cfg budget eval decode verdict).
 
   Lemma pres_eta : forall r : pres, match r with POk st' => POk st' | PErr e => PErr e end = r.
   Proof. intros [st'|e]; reflexivity. Qed.
@@ -207,7 +208,7 @@ Section Pipe.
   Lemma run_canonical_1 : forall st, run [0; 1; 2; 3; 4]%nat st = spec st.
   Proof.
     intros st. unfold spec_run. cbn [run_stages stage_fun].
-    destruct (stage_quote cfg budget st) as [s1|e]; [|reflexivity]. cbn [pbind].
+    destruct (stage_quote fx cfg budget st) as [s1|e]; [|reflexivity]. cbn [pbind].
     destruct (stage_expr budget eval s1) as [s2|e]; [|reflexivity]. cbn [pbind].
     destruct (ps_kind s2) eqn:K.
     - destruct (stage_bindvalue decode s2) as [s3|e] eqn:B; [|reflexivity]. cbn [pbind].
@@ -221,7 +222,7 @@ Section Pipe.
   Lemma run_canonical_2 : forall st, run [0; 1; 3; 2; 4]%nat st = spec st.
   Proof.
     intros st. unfold spec_run. cbn [run_stages stage_fun].
-    destruct (stage_quote cfg budget st) as [s1|e]; [|reflexivity]. cbn [pbind].
+    destruct (stage_quote fx cfg budget st) as [s1|e]; [|reflexivity]. cbn [pbind].
     destruct (stage_expr budget eval s1) as [s2|e]; [|reflexivity]. cbn [pbind].
     destruct (ps_kind s2) eqn:K.
     - rewrite bindprefix_other by (rewrite K; discriminate).
@@ -233,7 +234,7 @@ Section Pipe.
   Qed.
 
   Theorem staged_pipeline : forall facts st, staged facts = true ->
-    run_pipeline cfg budget eval decode verdict facts st = spec st.
+    run_pipeline fx cfg budget eval decode verdict facts st = spec st.
   Proof.
     intros facts st H. unfold run_pipeline, stage_order. rewrite run_filter.
     unfold staged in H. apply orb_true_iff in H. destruct H as [H|H]; apply nat_list_eqb_eq in H; rewrite H.
@@ -244,7 +245,7 @@ Section Pipe.
   (* ---- validation ---------------------------------------------------------------------- *)
 
   Theorem validate_iff : forall st s1 s2 s3,
-    stage_quote cfg budget st = POk s1 -> stage_expr budget eval s1 = POk s2 ->
+    stage_quote fx cfg budget st = POk s1 -> stage_expr budget eval s1 = POk s2 ->
     (match ps_kind s2 with TPrefix => stage_bindprefix cfg decode s2 | _ => stage_bindvalue decode s2 end) = POk s3 ->
     (spec st = PErr EValidate <->
        ps_kind s3 <> TOther /\ ps_validate s3 = true /\ verdict (ps_field s3) = false)
@@ -287,11 +288,11 @@ End Pipe.
 Lemma with_tagval_self : forall st, with_tagval st (ps_tagval st) = st.
 Proof. intros [k s v r va f]. reflexivity. Qed.
 
-Lemma stage_quote_eq : forall cfg budget st, ps_tagval st = ps_tagstr st ->
-  stage_quote cfg budget st =
-  of_outcome EQuote st (replace_all_content b_dollar (resolve cfg) budget 0 (ps_tagstr st)).
+Lemma stage_quote_eq : forall fx cfg budget st, ps_tagval st = ps_tagstr st ->
+  stage_quote fx cfg budget st =
+  of_outcome EQuote st (replace_all_content b_dollar (resolve fx cfg) budget 0 (ps_tagstr st)).
 Proof.
-  intros cfg budget st H. unfold stage_quote.
+  intros fx cfg budget st H. unfold stage_quote.
   destruct (find_first b_dollar (ps_tagstr st)) as [[i n]|] eqn:E; [reflexivity|].
   unfold replace_all_content. destruct budget as [b|]; rewrite rac_loop_eq, E; cbn [of_outcome];
     rewrite <- H, with_tagval_self; reflexivity.
@@ -301,6 +302,7 @@ Lemma rac_no_match : forall sig f exh n s, find_first sig s = None -> rac_loop s
 Proof. intros sig f exh n s H. now rewrite rac_loop_eq, H. Qed.
 
 Section ExprAfterSubst.
+  Variable fx : bool.
   Variable cfg : bytes -> cval.
   Variable eval : bytes -> res cval.
   Variable decode : cval -> res cval.
@@ -314,19 +316,19 @@ Section ExprAfterSubst.
 
   Lemma quote_on_expr_tag : forall b st pre post l u,
     ps_tagval st = ps_tagstr st -> ps_tagstr st = expr_tag pre post l ->
-    no_rbrace pre = true -> forallb wf l = true -> forallb (clean (resolve cfg)) l = true ->
+    no_rbrace pre = true -> forallb wf l = true -> forallb (clean (resolve fx cfg)) l = true ->
     (ph_count_all l <= b)%nat ->
-    subst_all (resolve cfg) l = Ok u ->
+    subst_all (resolve fx cfg) l = Ok u ->
     find_first b_dollar (expr_tag_subst pre post u) = None ->
-    stage_quote cfg (Some b) st = POk (with_tagval st (expr_tag_subst pre post u)).
+    stage_quote fx cfg (Some b) st = POk (with_tagval st (expr_tag_subst pre post u)).
   Proof.
     intros b st pre post l u Hv Hs Hp Hw Hc Hb Hu Hn.
-    rewrite (stage_quote_eq cfg (Some b) st Hv), Hs. unfold replace_all_content, expr_tag.
+    rewrite (stage_quote_eq fx cfg (Some b) st Hv), Hs. unfold replace_all_content, expr_tag.
     replace (pre ++ b_hash :: b_lbrace :: render_all b_dollar l ++ b_rbrace :: post)
       with ((pre ++ [b_hash; b_lbrace]) ++ render_all b_dollar l ++ b_rbrace :: post)
       by (rewrite <- app_assoc; reflexivity).
     replace b with (ph_count_all l + (b - ph_count_all l))%nat by lia.
-    rewrite (denotational_ctx b_dollar eq_refl eq_refl (resolve cfg) l (pre ++ [b_hash; b_lbrace]) (b_rbrace :: post)
+    rewrite (denotational_ctx b_dollar eq_refl eq_refl (resolve fx cfg) l (pre ++ [b_hash; b_lbrace]) (b_rbrace :: post)
                _ Exhausted); [|apply no_rbrace_app; split; [exact Hp|reflexivity]|exact Hw|exact Hc].
     rewrite Hu.
     replace ((pre ++ [b_hash; b_lbrace]) ++ u ++ b_rbrace :: post) with (expr_tag_subst pre post u)
@@ -353,11 +355,11 @@ Section ExprAfterSubst.
   Theorem expr_after_subst : forall facts b st pre post l u,
     staged facts = true ->
     ps_kind st = TValue -> ps_tagval st = ps_tagstr st -> ps_tagstr st = expr_tag pre post l ->
-    no_rbrace pre = true -> forallb wf l = true -> forallb (clean (resolve cfg)) l = true ->
+    no_rbrace pre = true -> forallb wf l = true -> forallb (clean (resolve fx cfg)) l = true ->
     (ph_count_all l <= S b)%nat ->
-    subst_all (resolve cfg) l = Ok u ->
+    subst_all (resolve fx cfg) l = Ok u ->
     find_first b_dollar (expr_tag_subst pre post u) = None ->
-    run_pipeline cfg (Some (S b)) eval decode verdict facts st =
+    run_pipeline fx cfg (Some (S b)) eval decode verdict facts st =
     match eval u with
     | Ok v =>
       match format_any v with
@@ -373,7 +375,7 @@ Section ExprAfterSubst.
     end.
   Proof.
     intros facts b st pre post l u Hst Hk Hv Hs Hp Hw Hc Hb Hu Hn.
-    rewrite (staged_pipeline cfg (Some (S b)) eval decode verdict facts st Hst). unfold spec_run.
+    rewrite (staged_pipeline fx cfg (Some (S b)) eval decode verdict facts st Hst). unfold spec_run.
     rewrite (quote_on_expr_tag (S b) st pre post l u Hv Hs Hp Hw Hc Hb Hu Hn). cbn [pbind].
     assert (Hbf : brace_free u = true) by (eapply subst_all_brace_free; eauto).
     rewrite (expr_on_subst_tag b (with_tagval st (expr_tag_subst pre post u)) pre post u eq_refl Hp Hbf).
@@ -387,11 +389,11 @@ Section ExprAfterSubst.
   Corollary expr_result_bound : forall facts b st l u v fv pv f,
     staged facts = true ->
     ps_kind st = TValue -> ps_tagval st = ps_tagstr st -> ps_tagstr st = expr_tag [] [] l ->
-    forallb wf l = true -> forallb (clean (resolve cfg)) l = true -> (ph_count_all l <= S b)%nat ->
-    subst_all (resolve cfg) l = Ok u -> find_first b_dollar (expr_tag_subst [] [] u) = None ->
+    forallb wf l = true -> forallb (clean (resolve fx cfg)) l = true -> (ph_count_all l <= S b)%nat ->
+    subst_all (resolve fx cfg) l = Ok u -> find_first b_dollar (expr_tag_subst [] [] u) = None ->
     eval u = Ok v -> format_any v = Ok fv -> find_first b_hash fv = None -> fv <> [] ->
     parse_any fv = Ok pv -> decode pv = Ok f ->
-    run_pipeline cfg (Some (S b)) eval decode verdict facts st =
+    run_pipeline fx cfg (Some (S b)) eval decode verdict facts st =
     stage_validate verdict (with_field (with_tagval st fv) f).
   Proof.
     intros facts b st l u v fv pv f Hst Hk Hv Hs Hw Hc Hb Hu Hn He Hf Hh Hne Hpa Hd.
